@@ -207,7 +207,10 @@ func (c *MapCodec) readMapEntry(mp, k unsafe.Pointer, data []byte) (int, error) 
 	}
 
 	if index == 1 {
-		// Key is present - read it
+		// Key is present - read it. The scratch space is re-used between
+		// entries and calls, and codecs only write the fields that are present
+		// in the data, so start from zero.
+		typedmemclr(unpackEFace(c.rtype.Key()).data, k)
 		n, err := c.keyCodec.Read(data[offset:fieldEnd], k, wt)
 		if err != nil {
 			return 0, fmt.Errorf("failed reading key field of %s. %w", c.rtype.Name(), err)
